@@ -1528,6 +1528,11 @@ def _sig(params, kind):
     return [[p[0], p[1]] for p in params] + [kind]
 
 
+def _aux_sig(code):
+    """names and binders of the auxiliary (loop) functions of a translation: the stored lemmas about a loop are stated about these"""
+    return re.findall(r"^Fixpoint (\w+) (.*?)\{struct", code, flags=re.M)
+
+
 def _generate(repo, base, force):
     chunks = [PREAMBLE2]
     # functions translated by tools/rs2coq.py (Gen.v) that the functions translated here call
@@ -1542,8 +1547,9 @@ def _generate(repo, base, force):
             text = open(os.path.join(repo, cfg["file"])).read()
             code, info = translate(text, cfg, rs2coq.constants_of(text), known)
             fb = base.get(cfg["coq"])
-            if fb is not None and _sig(info.params, info.kind) != _sig(fb["params"], fb["kind"]):
-                raise Unsupported("the function's interface changed (the stored statements are about the interface at the pinned commit)")
+            if fb is not None and (_sig(info.params, info.kind) != _sig(fb["params"], fb["kind"])
+                                   or [list(x) for x in _aux_sig(code)] != [list(x) for x in _aux_sig(fb["code"])]):
+                raise Unsupported("the function's interface (or that of its loop) changed (the stored statements are about the interface at the pinned commit)")
             chunks.append("(* %s :: fn %s *)\n%s\n" % (cfg["file"], cfg["rust"], code))
             known[(cfg.get("impl"), cfg["rust"])] = info
             done.append(cfg["coq"])
